@@ -7,7 +7,7 @@
    (ObjectAlignmenter::Check), fewer than 2^32 columns in one call. *)
 From Coq Require Import ZArith List Bool.
 From MomoCommon Require Import GenPrelude.
-From C18 Require Gen_Vertices Gen_Ceil Gen_List Model Layout Fill Vertices Bits Inv Main RawLife Static.
+From C18 Require Gen_Vertices Gen_Ceil Gen_List Gen_Raw Gen_Bits Model Layout Fill Vertices Bits Inv Main RawLife RawGen Static.
 Import ListNotations.
 Local Open Scope Z_scope.
 
@@ -348,6 +348,46 @@ Theorem C18_obs_param_graph_isomorphic :
      In (Z.lxor v2 p, val) (Model.old_edges L (Z.lxor p q) Model.g_empty rs (Z.lxor v p))).
 Proof. exact Inv.param_graph_isomorphic. Qed.
 Print Assumptions C18_obs_param_graph_isomorphic.
+
+(* round 6: the cxx2coq translations of the real UIntMath<uint8_t>::GetBit / SetBit (pointer parameter as array) satisfy the
+   bit-array law, and are the model's bit functions *)
+Theorem C18_generated_GetBit_SetBit :
+  forall b i j, 0 <= i -> 0 <= j -> Bits.bytes_ok b ->
+    Gen_Bits.GetBit (Gen_Bits.SetBit b i) j = Z.eqb i j || Gen_Bits.GetBit b j.
+Proof. exact Bits.generated_GetBit_SetBit. Qed.
+Print Assumptions C18_generated_GetBit_SetBit.
+
+Theorem C18_generated_SetBit_is_model :
+  forall b j, 0 <= j -> Gen_Bits.SetBit b j = Model.SetBit b j.
+Proof. exact Bits.SetBit_refines. Qed.
+Print Assumptions C18_generated_SetBit_is_model.
+
+(* IsMutable's bit test with the GENERATED GetBit on every reachable state: true exactly at the mutable columns' offsets *)
+Theorem C18_generated_GetBit_iff_added_mutable :
+  forall L keep, 4 <= L <= 15 -> forall ops, Forall (fun op => Inv.group_ok (snd op)) ops ->
+    (forall r, In r (Model.columns (Model.run_f L keep ops)) ->
+       Gen_Bits.GetBit (Model.mutBytes (Model.run_f L keep ops)) (Model.r_off r) = Model.r_mut r) /\
+    (forall o, 0 <= o -> Gen_Bits.GetBit (Model.mutBytes (Model.run_f L keep ops)) o = true ->
+       exists r, In r (Model.columns (Model.run_f L keep ops)) /\ Model.r_off r = o /\ Model.r_mut r = true).
+Proof. exact Main.reachable_generated_GetBit. Qed.
+Print Assumptions C18_generated_GetBit_iff_added_mutable.
+
+(* round 6: the cxx2coq translation of the real pvCreateRaw (try_catch mode: the funcIndex loop, a createFunc call that throws
+   according to ANY per-call schedule P, the catch block's destroy loop below funcIndex, `throw;`) on a list of n <= 65536
+   FuncRecords with any identities arr: never Fuel/Stuck; if no call throws it completes with every record created as often as
+   it occurs and nothing destroyed; if call t is the first to throw it does not complete, records 0..t-1 are created and
+   EVERY record is destroyed exactly as often as it was created (the failing record and the later ones are not touched) *)
+Theorem C18_generated_pvCreateRaw_balanced :
+  forall arr n P, 0 <= n <= 65536 ->
+    match RawGen.first_fail P 0 (Z.to_nat n) with
+    | None => exists c', Gen_Raw.pvCreateRaw n arr 0 (fun _ => 0) (fun _ => 0) P = Ok (true, n, c', fun _ => 0) /\
+                         forall x, c' x = RawGen.cnt arr 0 (Z.to_nat n) x
+    | Some t => exists c' d', Gen_Raw.pvCreateRaw n arr 0 (fun _ => 0) (fun _ => 0) P = Ok (false, Z.of_nat t, c', d') /\
+                         (Z.of_nat t < n) /\ P (Z.of_nat t) = true /\
+                         (forall x, c' x = RawGen.cnt arr 0 t x) /\ (forall x, d' x = c' x)
+    end.
+Proof. exact RawGen.generated_pvCreateRaw_balanced. Qed.
+Print Assumptions C18_generated_pvCreateRaw_balanced.
 
 (* pvCreateRaw with its funcIndex bookkeeping (index loop, catch destroys the records below funcIndex) is the structural
    model the row theorems are about *)
